@@ -272,8 +272,7 @@ func OnceDo(o *sync.Once, f func(), site string) {
 		}
 	}
 	if !held {
-		raceEnable()
-		panic("simrt: once nesting deeper than 8")
+		t.inOnce = append(t.inOnce, unsafe.Pointer(o))
 	}
 	raceEnable()
 	defer onceRelease(s, t, unsafe.Pointer(o))
